@@ -204,6 +204,7 @@ func c20NewSUT(ch *c20Chain, cfg c20LC) (*c20SUT, error) {
 	s.lc = lc
 	s.cl = NewClient(s.primary, lc, KeyPathFn(DefaultMerkleKeyPathFn()))
 	s.cl.RegisterOpDecoder(c20AbsenceOpType, c20AbsenceOpDecoder)
+	s.cl.RegisterOpDecoder(c20StepOpType, c20StepOpDecoder) // key-less operator type: only a lying server uses it
 	return s, nil
 }
 
